@@ -10,6 +10,7 @@ import pgp as _pgp
 import macho as _macho
 import magic as _magic
 import xap as _xap
+import dmg as _dmg
 
 TIE = "corr:c11"
 TIE_THEOREM = ("Relic.Model.{PE,ApkBlock,CsBlob,Binpatch} vs lib/authenticode, signers/apk, lib/fruit/csblob, lib/signxap, lib/binpatch "
@@ -70,6 +71,8 @@ def canon_model(op, mres):
         return _magic.canon_model(op, mres)
     if _tok(op) == "XAP":
         return _xap.canon_model(op, mres)
+    if _tok(op) == "DMG":
+        return _dmg.canon_model(op, mres)
     return mres
 
 
@@ -92,6 +95,8 @@ def agree(op, il, mres, tag):
         return _magic.equiv(op, il, mres)
     if t == "XAP":
         return _xap.equiv(op, il, mres)
+    if t == "DMG":
+        return _dmg.equiv(op, il, mres)
     if t == "C11":
         return mres == "safe" and il in ("ok", "err")
     if t in MODEL_TOKENS:
@@ -112,6 +117,8 @@ def agree(op, il, mres, tag):
 def weight(op):
     if _tok(op) == "XAP":
         return _xap.weight(op)
+    if _tok(op) == "DMG":
+        return _dmg.weight(op)
     return _pe.weight(op) if _tok(op) == "PE" else (_macho.weight(op) if _tok(op) == "MACHO" else 1)
 
 
@@ -127,6 +134,8 @@ def nontrivial(op, mres, tag):
         return _magic.nontrivial(op, mres, tag)
     if t == "XAP":
         return _xap.nontrivial(op, mres, tag)
+    if t == "DMG":
+        return _dmg.nontrivial(op, mres, tag)
     if t == "C11":
         f = op.split(" ")
         return len(f) == 5 and (f[4] != "-" or f[3].startswith(("hex:", "appxpe:", "tx:")))
@@ -145,6 +154,8 @@ def branch(op, mres, tag):
         return _magic.branch(op, mres, tag)
     if t == "XAP":
         return _xap.branch(op, mres, tag)
+    if t == "DMG":
+        return _dmg.branch(op, mres, tag)
     f = op.split(" ")
     if t == "C11":
         return "%s:%s" % (f[1], f[2])
@@ -179,6 +190,10 @@ def predicate(op, il, mres, tag):
         r = _xap.predicate("C11", op, il, mres, tag)
         if r is None and il.startswith(("abort", "timeout", "alloc", "harness-error")):
             return ("Relic.Props.C11.xap_verify_alloc_le / xap_verify_no_panic (xap %s)" % il.split(" ")[0], mres, "signxap: " + il)
+    if t == "DMG":
+        r = _dmg.predicate("C11", op, il, mres, tag)
+        if r is None and il.startswith(("abort", "timeout", "alloc", "harness-error")):
+            return ("Relic.Props.C11 (dmg %s)" % il.split(" ")[0], mres, "UDIF trailer / signature parser: " + il)
         return r
     if il.startswith(BAD) or (t == "C11" and il not in ("ok", "err")):
         what = il.split(" ")[0]
@@ -205,6 +220,8 @@ def matches_known(k, op, il, mres, tag):
         return _macho.matches_known(k, op, il, mres, tag)
     if _tok(op) == "XAP":
         return _xap.matches_known(k, op, il, mres, tag)
+    if _tok(op) == "DMG":
+        return _dmg.matches_known(k, op, il, mres, tag)
     if outcome == "alloc" and il == "timeout":
         # a multi-GiB request may also run into the deadline while the pages are being zeroed: same finding, same entry points
         return _entry(op) in ident.get("entries", [])
